@@ -679,8 +679,66 @@ fn gen_op(r: &mut Rng, w: Workload) -> Op {
     }
 }
 
+/// A history centred on one long-lived object: a caller thread keeps ONE `FrameBuf` and uses it for a run of
+/// frame-level encodes of the same shape (channels, block size) whose sample width, fill length, signal,
+/// delivery and configuration change from call to call - what a program does that recycles its buffers
+/// between streams. Other calls may come in between. The reference of every call uses a new buffer.
+fn gen_object_history(r: &mut Rng, thorough: bool) -> History {
+    let nops = 3 + r.below(if thorough { 9 } else { 5 });
+    let mut base = fresh_workload(r);
+    if r.chance(0.5) {
+        base.channels = 1;
+        base.sig_kinds.truncate(1);
+    }
+    base.bits = *r.pick(&[24usize, 24, 20, 16]);
+    base.nfull = base.nfull.max(1);
+    base.faults.clear();
+    crate::workload::tame(&mut base);
+    let mut steps: Vec<Step> = vec![];
+    for i in 0..nops {
+        if i > 0 && r.chance(0.2) {
+            let from = r.below(steps.len());
+            let (w, tag) = mutate(steps[from].op.w(), r);
+            steps.push(Step { thread: 0, op: gen_op(r, w), derived: format!("{tag} of #{from}") });
+            continue;
+        }
+        let mut w = base.clone();
+        let mut tag = "object".to_owned();
+        if i > 0 {
+            w.bits = *r.pick(crate::workload::BITS);
+            w.sig_seed = r.next_u64();
+            for k in &mut w.sig_kinds {
+                if r.chance(0.5) {
+                    *k = r.below(14) as u8;
+                }
+            }
+            if r.chance(0.3) {
+                w.cfg = crate::workload::CfgSpec::random(r);
+            }
+            crate::workload::tame(&mut w);
+            tag = format!("object: {} bits", w.bits);
+        }
+        let fill = match (i, r.below(5)) {
+            (0, _) | (_, 0) => w.block,
+            (_, 1) => 1 + r.below(w.block),
+            (_, 2) => w.block - 1,
+            (_, 3) => 1,
+            _ => w.block / 2,
+        };
+        steps.push(Step {
+            thread: 0,
+            op: Op::EncFrame { frame_number: *r.pick(&[0usize, 1, 128]), fill, as_bytes: r.chance(0.4), keep: true, w },
+            derived: tag,
+        });
+    }
+    History { nthreads: 1, steps }
+}
+
 pub fn gen_history(seed: u64, index: u64, thorough: bool) -> History {
     let mut r = Rng::new(mix(seed, 0xC10_0000 + index));
+    if index % 8 == 5 {
+        return gen_object_history(&mut r, thorough);
+    }
     let nthreads = match r.below(10) {
         0..=4 => 1,
         5..=7 => 2,
